@@ -15,7 +15,7 @@ import (
 // peer does (fault_enumeration over adversary x stall offset x local state x call).
 
 func init() {
-	register(&Prop{ID: "C09", Run: runC09, Enum: enumC09, Quick: 6000, Thorough: 40000, Level: "fault_enumeration",
+	register(&Prop{ID: "C09", Run: runC09, Enum: enumC09, Quick: 6000, Thorough: 400000, Level: "fault_enumeration",
 		Exhaustive: "adversary (11 kinds) x every stall offset k of the scripted frame x local state (8) x call (Close, CloseNow, CloseRead self-close) x role"})
 }
 
